@@ -31,6 +31,9 @@ import (
 type Options struct {
 	Lazy bool   // QUIC stream-visibility rule
 	EKM  []byte // what ExportKeyingMaterial returns on both ends
+	// one-way latency of this connection (bytes, stream visibility and FINs reach the peer this much later, in order); 0 = at once.
+	// Faults are still counted at write time.
+	Delay time.Duration
 }
 
 // Fault strikes when byte number AtByte (0-based) of the Nth stream opened by side From
@@ -52,6 +55,48 @@ type pair struct {
 	faults []*Fault
 	// event log for the orchestrator
 	Log []string
+	// delayed deliveries (Options.Delay), FIFO
+	dq        []delayed
+	dqRunning bool
+}
+
+type delayed struct {
+	due time.Time
+	fn  func()
+}
+
+// deliver runs fn now, or - on a connection with latency - after the delay, in the order of the calls. Called with p.mu held.
+func (p *pair) deliver(fn func()) {
+	if p.opt.Delay <= 0 {
+		fn()
+		return
+	}
+	p.dq = append(p.dq, delayed{time.Now().Add(p.opt.Delay), fn})
+	if !p.dqRunning {
+		p.dqRunning = true
+		go p.runDelayed()
+	}
+}
+
+func (p *pair) runDelayed() {
+	for {
+		p.mu.Lock()
+		if len(p.dq) == 0 {
+			p.dqRunning = false
+			p.mu.Unlock()
+			return
+		}
+		it := p.dq[0]
+		if w := time.Until(it.due); w > 0 {
+			p.mu.Unlock()
+			time.Sleep(w)
+			continue
+		}
+		p.dq = p.dq[1:]
+		it.fn()
+		p.cond.Broadcast()
+		p.mu.Unlock()
+	}
 }
 
 type Conn struct {
@@ -129,7 +174,7 @@ func (c *Conn) OpenStream(ctx context.Context) (transfer.Stream, error) {
 	local.in, remote.out = ba, ba
 	c.opened = append(c.opened, local)
 	if !p.opt.Lazy {
-		c.reveal(local)
+		p.deliver(func() { c.reveal(local) })
 	}
 	return local, nil
 }
@@ -271,7 +316,7 @@ func (s *Stream) Write(b []byte) (int, error) {
 		return 0, errors.New("write on closed stream")
 	}
 	if s.byA == s.c.isA { // opener writes: reveals the stream
-		s.c.reveal(s)
+		p.deliver(func() { s.c.reveal(s) })
 	}
 	written := 0
 	for written < len(b) {
@@ -297,7 +342,9 @@ func (s *Stream) Write(b []byte) (int, error) {
 			}
 		}
 		if hit == nil {
-			s.out.buf = append(s.out.buf, b[written:]...)
+			data := append([]byte(nil), b[written:]...)
+			out := s.out
+			p.deliver(func() { out.buf = append(out.buf, data...) })
 			s.out.nbytes += int64(len(b) - written)
 			written = len(b)
 			break
@@ -342,10 +389,13 @@ func (s *Stream) Close() error {
 	}
 	s.closed = true
 	if s.c.err == nil {
-		s.out.fin = true
-		if s.byA == s.c.isA {
-			s.c.reveal(s)
-		}
+		out, byOpener := s.out, s.byA == s.c.isA
+		p.deliver(func() {
+			out.fin = true
+			if byOpener {
+				s.c.reveal(s)
+			}
+		})
 	}
 	p.cond.Broadcast()
 	return nil
